@@ -4,6 +4,7 @@ here=$(pwd)
 (cd lean && lake build Treepath tpdriver >/dev/null 2>&1)
 n=0; sk=${SHARD%%/*}; sn=${SHARD##*/}
 for d in seeded/harmless/R*; do
+  [ -n "$ONLY" ] && ! (basename $d | grep -Eq "$ONLY") && continue
   n=$((n+1)); [ -n "$SHARD" ] && [ $((n % sn)) -ne $((sk % sn)) ] && continue
   patch="$here/$d/patch.diff"
   wt=$(mktemp -d /tmp/hwt.XXXXXX); rmdir "$wt"
